@@ -182,12 +182,31 @@ Definition to_gen (c : cell) : cell := CVal (cell_val c).
 Definition to_nodecol (c : cell) : cell :=
   match cell_val c with VInt i => CNode i | VNull => CVal VNull | _ => CNode 0 end.
 
-(** A typed vector (vector.rs ValueVector): [set_null] allocates the validity bitmap at the FIRST null
-    with the length the vector has then, and nothing ever extends it — every later null keeps the
-    pushed default (0, 0.0, NodeId(0)); a value of another type is a "type mismatch" and also pushes
-    the default (push_value l.206-217).  Generic vectors store Value::Null itself and are exact. *)
+(** A typed vector (vector.rs ValueVector).  Since dfd360c [set_null] records every null; a value of
+    another type than the vector's is a "type mismatch" and pushes the default (0, 0.0, NodeId(0))
+    (push_value l.206-217).  Generic vectors store the value itself.  The [seen_null] flag is what
+    the pre-dfd360c code depended on ([push_typed_pre]: the validity bitmap was allocated at the
+    FIRST null with the length the vector had then, so every later null read back as the default). *)
 Inductive coltype := TGen | TNode | TInt | TFlt.
 Definition push_typed (ty : coltype) (seen_null : bool) (c : cell) : cell * bool :=
+  match ty with
+  | TGen => (c, seen_null)
+  | TNode => match c with
+             | CVal VNull => (c, true)
+             | _ => (c, seen_null)
+             end
+  | TInt => match cell_val c with
+            | VNull => (CVal VNull, true)
+            | VInt z => (CVal (VInt z), seen_null)
+            | _ => (CVal (VInt 0), seen_null)
+            end
+  | TFlt => match cell_val c with
+            | VNull => (CVal VNull, true)
+            | VFlt n d => (CVal (VFlt n d), seen_null)
+            | _ => (CVal (VFlt 0 1), seen_null)
+            end
+  end.
+Definition push_typed_pre (ty : coltype) (seen_null : bool) (c : cell) : cell * bool :=
   match ty with
   | TGen => (c, seen_null)
   | TNode => match c with
@@ -590,8 +609,12 @@ Definition agg_name (a : aggx) : string :=
             | ACollect => "collect(...)"%string
             end
   end.
-(** plan_aggregate l.1661-1680: the result vectors of count/sum/min/max are Int64, of avg Float64 *)
+(** plan_aggregate l.1661-1680: the result vectors of count are Int64, of avg Float64; since 41c4655
+    sum/min/max results travel in vectors of type Any ([agg_coltype_pre]: Int64, so that a string or
+    float minimum came out as 0) *)
 Definition agg_coltype (a : aggx) : coltype :=
+  match ag_fn a with AAvg => TFlt | ACount | ACountNN => TInt | _ => TGen end.
+Definition agg_coltype_pre (a : aggx) : coltype :=
   match ag_fn a with AAvg => TFlt | ACollect => TGen | _ => TInt end.
 Definition aggregate_tbl (st : store) (gb : list lexpr) (aggs : list aggx) (t : tbl) : res tbl :=
   do t1 <- add_prop_cols st t (gb ++ flat_map (fun a => match ag_arg a with Some e => [e] | None => [] end) aggs);
@@ -627,8 +650,9 @@ Fixpoint sem_ops (st : store) (p : lop) : res tbl :=
   | LFilter e input =>
       do t <- sem_ops st input;
       Ok (filter_tbl (fun r => passes_row st (cols t) r e) t)
-  | LReturn items _distinct input =>      (* plan_return never looks at ReturnOp.distinct *)
-      do t <- sem_ops st input; return_tbl st items t
+  | LReturn items distinct input =>       (* since 36a1196 plan_return puts a DistinctOperator on the projected rows *)
+      do t <- sem_ops st input; do r <- return_tbl st items t;
+      if distinct then Ok (mkT (cols r) (distinct_rows (rows r))) else Ok r
   | LProject items input =>
       do t <- sem_ops st input; project_tbl st items t
   | LSort keys input =>
